@@ -746,4 +746,247 @@ theorem C04_point_call (kb : KB ι α) (hwf : WF kb) (v : ι → α) (hv : Consi
   rw [passSteps_up]
   exact C04_point_gen kb hwf v hv s hs _ hcf hnode
 
+/-! ### local form: `v` need only solve the equations of the scheduled nodes -/
+
+/-- the knowledge base with every node outside `sched` turned into an atom (same parameters) -/
+def restrictKB (kb : KB ι α) (sched : List ι) : KB ι α :=
+  fun j => if j ∈ sched then kb j else { kb j with kind := .atom }
+
+theorem restrictKB_mem (kb : KB ι α) (sched : List ι) {j : ι} (h : j ∈ sched) :
+    restrictKB kb sched j = kb j := if_pos h
+
+theorem restrictKB_ops (kb : KB ι α) (sched : List ι) (j : ι) :
+    (restrictKB kb sched j).ops = (kb j).ops := by
+  unfold restrictKB; split <;> rfl
+
+theorem restrictKB_alpha (kb : KB ι α) (sched : List ι) (j : ι) :
+    (restrictKB kb sched j).alpha = (kb j).alpha := by
+  unfold restrictKB; split <;> rfl
+
+theorem stepUp_restrict (kb : KB ι α) (sched : List ι) (s : State ι α) {i : ι} (hi : i ∈ sched) :
+    stepUp (restrictKB kb sched) i s = stepUp kb i s := by
+  have harr : arrested (restrictKB kb sched) s i = arrested kb s i := by
+    unfold arrested
+    simp only [restrictKB_mem kb sched hi, restrictKB_alpha]
+  unfold stepUp
+  simp only [harr, restrictKB_mem kb sched hi]
+
+theorem runSteps_restrict (kb : KB ι α) (sched : List ι) (l : List ι) (hl : ∀ i ∈ l, i ∈ sched)
+    (s : State ι α) :
+    runSteps (restrictKB kb sched) (l.map Step.up) s = runSteps kb (l.map Step.up) s := by
+  induction l generalizing s with
+  | nil => rfl
+  | cons i rest ih =>
+    simp only [List.map_cons, runSteps, runStep, stepUp_restrict kb sched s (hl i (List.mem_cons_self ..))]
+    rw [ih (fun k hk => hl k (List.mem_cons_of_mem _ hk))]
+
+/-- **Point evaluation, local form.** `v` has to obey the truth functions of the scheduled nodes
+only; whatever else the knowledge base contains (cycles, unsatisfiable parts) is irrelevant. -/
+theorem C04_point_local (kb : KB ι α) (hwf : WF kb) (v : ι → α) (hv01 : ∀ i, 0 ≤ v i ∧ v i ≤ 1)
+    (s : State ι α) (hs : Sat v s) (sched : List ι)
+    (hloc : ∀ i ∈ sched, ∀ y, nodeVal (kb i) v = some y → v i = y)
+    (hcf : ChildrenFirst kb s v sched)
+    (hnode : ∀ i ∈ sched, IsPoint s v i ∨ (nodeVal (kb i) v).isSome) :
+    ∀ i ∈ sched, IsPoint (runSteps kb (sched.map Step.up) s).1 v i := by
+  have hwf' : WF (restrictKB kb sched) := by
+    intro j
+    unfold restrictKB
+    split
+    · exact hwf j
+    · exact hwf j
+  have hv' : Consistent (restrictKB kb sched) v := by
+    intro j
+    refine ⟨(hv01 j).1, (hv01 j).2, ?_⟩
+    by_cases hj : j ∈ sched
+    · rw [restrictKB_mem kb sched hj]; exact hloc j hj
+    · intro y hy
+      unfold restrictKB at hy
+      rw [if_neg hj] at hy
+      simp [nodeVal] at hy
+  have hcf' : ChildrenFirst (restrictKB kb sched) s v sched := by
+    rw [childrenFirst_iff] at hcf ⊢
+    simpa only [restrictKB_ops] using hcf
+  have hnode' : ∀ i ∈ sched, IsPoint s v i ∨ (nodeVal (restrictKB kb sched i) v).isSome := by
+    intro i hi
+    rw [restrictKB_mem kb sched hi]
+    exact hnode i hi
+  rw [← runSteps_restrict kb sched sched (fun i hi => hi) s]
+  exact C04_point_gen (restrictKB kb sched) hwf' v hv' s hs sched hcf' hnode'
+
+/-! ## Non-vacuity over ℚ -/
+
+/-- atoms 0,1,2; node 3 = And(0,1) with weights (1/2, 2); node 4 = Implies(3,2); node 5 = Not(4) -/
+def c04KB : KB Nat ℚ := fun i =>
+  match i with
+  | 3 => { kind := .and, ops := [0, 1], ws := [1/2, 2], bias := 1, alpha := 1 }
+  | 4 => { kind := .implies, ops := [3, 2], ws := [1, 1], bias := 1, alpha := 1 }
+  | 5 => { kind := .neg, ops := [4], bias := 1, alpha := 1 }
+  | _ => { kind := .atom, bias := 1, alpha := 1 }
+
+def c04V : Nat → ℚ := fun i =>
+  match i with
+  | 0 => 1/2 | 1 => 3/4 | 2 => 1/8 | 3 => 1/4 | 4 => 7/8 | 5 => 1/8 | _ => 0
+
+/-- atoms at point values, every connective UNKNOWN -/
+def c04S : State Nat ℚ := fun i =>
+  match i with
+  | 0 => ⟨1/2, 1/2⟩ | 1 => ⟨3/4, 3/4⟩ | 2 => ⟨1/8, 1/8⟩ | _ => ⟨0, 1⟩
+
+theorem c04_wf : WF c04KB := by
+  intro i
+  unfold c04KB
+  split <;> simp
+
+theorem c04_consistent : Consistent c04KB c04V := by
+  intro i
+  match i with
+  | 0 => simp [c04KB, c04V, nodeVal]; norm_num
+  | 1 => simp [c04KB, c04V, nodeVal]; norm_num
+  | 2 => simp [c04KB, c04V, nodeVal]; norm_num
+  | 3 => simp [c04KB, c04V, nodeVal, clamp01]; norm_num
+  | 4 => simp [c04KB, c04V, nodeVal, clamp01]; norm_num
+  | 5 => simp [c04KB, c04V, nodeVal]; norm_num
+  | (n + 6) => simp [c04KB, c04V, nodeVal]
+
+theorem c04_sat : Sat c04V c04S := by
+  intro i
+  match i with
+  | 0 => simp [c04V, c04S]
+  | 1 => simp [c04V, c04S]
+  | 2 => simp [c04V, c04S]
+  | 3 => simp [c04V, c04S]; norm_num
+  | 4 => simp [c04V, c04S]; norm_num
+  | 5 => simp [c04V, c04S]; norm_num
+  | (n + 6) => simp [c04V, c04S]
+
+theorem c04_cf : ChildrenFirst c04KB c04S c04V [3, 4, 5] := by
+  simp [ChildrenFirst, ChildrenFirstFrom, c04KB, IsPoint, c04S, c04V]
+
+theorem c04_nonatom : ∀ i ∈ [3, 4, 5], (c04KB i).kind ≠ .atom := by
+  simp [c04KB]
+
+theorem c04_shaped : ∀ i ∈ [3, 4, 5], Shaped (c04KB i) := by
+  simp [c04KB, Shaped]
+
+/-- the theorem applies: Not(Implies(And(0,1),2)) is evaluated to the point `1/8` -/
+example : (runSteps c04KB ([3, 4, 5].map Step.up) c04S).1 5 = ⟨1/8, 1/8⟩ :=
+  C04_point c04KB c04_wf c04V c04_consistent c04S c04_sat [3, 4, 5] c04_cf c04_nonatom c04_shaped
+    5 (by simp)
+
+example : (runSteps c04KB ([3, 4, 5].map Step.up) c04S).1 3 = ⟨1/4, 1/4⟩ :=
+  C04_point c04KB c04_wf c04V c04_consistent c04S c04_sat [3, 4, 5] c04_cf c04_nonatom c04_shaped
+    3 (by simp)
+
+/-- Iff(0,1) as the implementation builds it: node 4 = And(2,3) over the generated inner nodes
+2 = (0 → 1) and 3 = (1 → 0), which `upward` of node 4 runs first (`pre`) -/
+def iffKB : KB Nat ℚ := fun i =>
+  match i with
+  | 2 => { kind := .implies, ops := [0, 1], ws := [1, 1], bias := 1, alpha := 1 }
+  | 3 => { kind := .implies, ops := [1, 0], ws := [1, 1], bias := 1, alpha := 1 }
+  | 4 => { kind := .and, ops := [2, 3], ws := [1, 1], bias := 1, alpha := 1, pre := [2, 3] }
+  | _ => { kind := .atom, bias := 1, alpha := 1 }
+
+/-- classical reading: 0 is true, 1 is false, so `0 ↔ 1` is false -/
+def iffV : Nat → ℚ := fun i =>
+  match i with
+  | 0 => 1 | 1 => 0 | 2 => 0 | 3 => 1 | 4 => 0 | _ => 0
+
+def iffS : State Nat ℚ := fun i =>
+  match i with
+  | 0 => ⟨1, 1⟩ | 1 => ⟨0, 0⟩ | _ => ⟨0, 1⟩
+
+theorem iff_wf : WF iffKB := by
+  intro i
+  unfold iffKB
+  split <;> simp
+
+theorem iff_consistent : Consistent iffKB iffV := by
+  intro i
+  match i with
+  | 0 => simp [iffKB, iffV, nodeVal]
+  | 1 => simp [iffKB, iffV, nodeVal]
+  | 2 => simp [iffKB, iffV, nodeVal, clamp01]
+  | 3 => simp [iffKB, iffV, nodeVal, clamp01]
+  | 4 => simp [iffKB, iffV, nodeVal, clamp01]
+  | (n + 5) => simp [iffKB, iffV, nodeVal]
+
+theorem iff_sat : Sat iffV iffS := by
+  intro i
+  match i with
+  | 0 => simp [iffV, iffS]
+  | 1 => simp [iffV, iffS]
+  | 2 => simp [iffV, iffS]
+  | 3 => simp [iffV, iffS]
+  | 4 => simp [iffV, iffS]
+  | (n + 5) => simp [iffV, iffS]
+
+example : expandUp iffKB [4] = [2, 3, 4] := by simp [expandUp, iffKB]
+
+/-- the public call `Iff.upward()` evaluates the classical table entry `1 ↔ 0 = 0` -/
+example : (runPass iffKB ([4].map Call.up) iffS).1 4 = ⟨iffVal 1 0, iffVal 1 0⟩ := by
+  have h := C04_point_call iffKB iff_wf iffV iff_consistent iffS iff_sat [4]
+    (by simp [expandUp, ChildrenFirst, ChildrenFirstFrom, iffKB, IsPoint, iffS, iffV])
+    (by simp [expandUp, iffKB, nodeVal]) 4 (by simp [expandUp])
+  rw [C04_classical_iff 1 0 (Or.inr rfl) (Or.inl rfl)]
+  simpa [IsPoint, iffV] using h
+
+/-- three-valued run of the same formula: `UNKNOWN ↔ TRUE` is UNKNOWN (computed by the model) -/
+example :
+    (runPass iffKB ([4].map Call.up)
+      (fun i => match i with | 0 => UNKNOWN | 1 => TRUE | _ => UNKNOWN)).1 4 = UNKNOWN := by
+  norm_num [runPass, passSteps, Call.steps, callUp, runSteps, runStep, stepUp, iffKB, arrested,
+    isContra, region, actUp, andUp, impliesUp, opds, aggregate, clamp01, termLo, termHi,
+    Function.update, UNKNOWN, TRUE]
+
+/-! the classical tables on concrete lists -/
+
+example : andVal1 [(1:ℚ), 1, 1] = 1 := by
+  rw [C04_classical_and _ (by simp)]; simp
+example : andVal1 [(1:ℚ), 0, 1] = 0 := by
+  rw [C04_classical_and _ (by simp)]; simp
+example : orVal1 [(0:ℚ), 0, 1] = 1 := by
+  rw [C04_classical_or _ (by simp)]; simp
+example : xorVal [(0:ℚ), 1, 0] = 1 := by
+  rw [C04_classical_xor _ (by simp)]; simp
+example : xorVal [(1:ℚ), 1, 0] = 0 := by
+  rw [C04_classical_xor _ (by simp)]; simp
+example : xorVal [(0:ℚ), 0, 0, 0] = 0 := by
+  rw [C04_classical_xor _ (by simp)]; simp
+example : pairs [1, 2, 3] = [(1, 2), (1, 3), (2, 3)] := rfl
+
+/-! the Kleene tables on concrete lists -/
+
+example : ∀ o ∈ [(⟨1, 1, 1⟩ : Opd ℚ), ⟨1, 0, 1⟩, ⟨1, 0, 0⟩], o.K3 := by
+  simp [Opd.K3, Opd.bnd, FALSE, UNKNOWN, TRUE]
+
+example : andUp (1:ℚ) [⟨1, 1, 1⟩, ⟨1, 0, 1⟩, ⟨1, 1, 1⟩] = UNKNOWN :=
+  (C04_kleene_and _ (by simp [Opd.K3, Opd.bnd, FALSE, UNKNOWN, TRUE])).2.2
+    (by simp [Opd.bnd, FALSE]) ⟨⟨1, 0, 1⟩, by simp, by simp [Opd.bnd, UNKNOWN]⟩
+
+example : andUp (1:ℚ) [⟨1, 1, 1⟩, ⟨1, 0, 1⟩, ⟨1, 0, 0⟩] = FALSE :=
+  (C04_kleene_and _ (by simp [Opd.K3, Opd.bnd, FALSE, UNKNOWN, TRUE])).1
+    ⟨⟨1, 0, 0⟩, by simp, by simp [Opd.bnd, FALSE]⟩
+
+example : orUp true (1:ℚ) [⟨1, 0, 0⟩, ⟨1, 0, 1⟩, ⟨1, 1, 1⟩] = TRUE :=
+  (C04_kleene_or true _ (by simp [Opd.K3, Opd.bnd, FALSE, UNKNOWN, TRUE])).1
+    ⟨⟨1, 1, 1⟩, by simp, by simp [Opd.bnd, TRUE]⟩
+
+example : impliesUp (1:ℚ) [⟨1, 0, 1⟩, ⟨1, 0, 0⟩] = UNKNOWN :=
+  (C04_kleene_implies _ _ (by simp [Opd.K3, Opd.bnd, FALSE, UNKNOWN, TRUE])
+    (by simp [Opd.K3, Opd.bnd, FALSE, UNKNOWN, TRUE])).2.2.2
+    (by simp [Opd.bnd, FALSE]) (by simp [Opd.bnd, TRUE]) (Or.inl (by simp [Opd.bnd, UNKNOWN]))
+
+/-! the dualities on proper intervals with non-unit weights, and the necessity of the weight
+hypothesis for the transparent Or variant -/
+
+example : orUp true (3/4 : ℚ) [⟨1/2, 1/4, 1/2⟩, ⟨2, 0, 1/3⟩] = ⟨3/8, 1⟩ := by
+  norm_num [orUp, clamp01]
+
+example : negB (andUp (3/4 : ℚ) ([⟨1/2, 1/4, 1/2⟩, ⟨2, 0, 1/3⟩].map Opd.neg)) = ⟨3/8, 1⟩ := by
+  norm_num [negB, andUp, Opd.neg, termLo, termHi, clamp01]
+
+/-- with a negative weight the transparent Or activation is *not* the negated And of negations -/
+example : orUp true (1:ℚ) [⟨-1, 0, 0⟩] ≠ negB (andUp 1 ([⟨-1, 0, 0⟩].map Opd.neg)) := by
+  norm_num [orUp, negB, andUp, Opd.neg, termLo, termHi, clamp01]
+
 end LNN
